@@ -289,6 +289,10 @@ class Ctx:
 def load_corpus(prop):
     d = os.path.join(VERIF, 'corpus', prop)
     out = []
+    if os.environ.get('VERIF_SKIP_CORPUS'):
+        # only used by tools/run_seeded.py when a seeded change has to be applied to an older commit (before a later fix: commit):
+        # the witnesses of defects repaired since then would fire there for a reason that is not the seeded change
+        return out
     if os.path.isdir(d):
         for fn in sorted(os.listdir(d)):
             if fn.endswith('.json'):
